@@ -52,6 +52,9 @@ func (g *GettyRemoting) SendSync(msg message.RpcMessage, s getty.Session, callba
 	if s == nil {
 		s = sessionManager.selectSession(msg)
 	}
+	if s == nil {
+		return nil, fmt.Errorf("no available session to the transaction coordinator")
+	}
 	rpc.BeginCount(s.RemoteAddr())
 	result, err := g.sendAsync(s, msg, callback)
 	rpc.EndCount(s.RemoteAddr())
@@ -65,6 +68,9 @@ func (g *GettyRemoting) SendSync(msg message.RpcMessage, s getty.Session, callba
 func (g *GettyRemoting) SendAsync(msg message.RpcMessage, s getty.Session, callback callbackMethod) error {
 	if s == nil {
 		s = sessionManager.selectSession(msg)
+	}
+	if s == nil {
+		return fmt.Errorf("no available session to the transaction coordinator")
 	}
 	rpc.BeginCount(s.RemoteAddr())
 	_, err := g.sendAsync(s, msg, callback)
